@@ -51,7 +51,12 @@ cocls::async<void> consumer(cocls::future<T> &f, Rec<T> &r) {
 struct ItemThrow {};
 struct Item {
     int v;
+    bool copy_throws = false;
     Item(int x) : v(x) { if (x < 0) throw ItemThrow(); }
+    Item(const Item &o) : v(o.v) { if (o.copy_throws) throw ItemThrow(); }
+    Item(Item &&o) noexcept : v(o.v) {}
+    Item &operator=(const Item &) = default;
+    Item &operator=(Item &&) = default;
     operator int() const { return v; }
 };
 
@@ -62,7 +67,7 @@ struct World {
     std::deque<Rec<T>> recs;
     std::map<const void *, int> id_of;   // future address -> pop id
     std::string ret = "none";
-    int npush = 0, npop = 0;
+    int npush = 0, npop = 0, nthrow = 0;
     bool coro = false;
 
     J fut_state(std::size_t i) {
@@ -140,7 +145,13 @@ struct World {
                 ret = r ? "true" : "false";
             } else if (st.name == "PushThrow") {
                 if constexpr (std::is_same_v<T, Item>) {
-                    try { (void) q->push(-1); ret = "nothrow"; } catch (const ItemThrow &) { ret = "threw"; }
+                    // the failing construction alternates between the emplace form (the constructor from the argument throws)
+                    // and a ready-made item passed as an lvalue (its copy constructor throws)
+                    try {
+                        if (nthrow++ % 2 == 0) (void) q->push(-1);
+                        else { Item it(77); it.copy_throws = true; (void) q->push(it); }
+                        ret = "nothrow";
+                    } catch (const ItemThrow &) { ret = "threw"; }
                 } else { rep.error(k, "PushThrow needs the throwing item type"); break; }
             } else if (st.name == "PopCS") {
                 npop++;
